@@ -73,7 +73,8 @@ ParamChecks ==
   /\ PW!MustBeParam(PW!Context(TaintProg("RAX")), "sub_f") = {"RDI"}
   \* a callee's reads are the caller's reads when the caller has not overwritten the register:
   \* g reads RSI and returns; f calls g first thing -> RSI must be a parameter of f, too;
-  \* h calls the non-returning k (reads RDX, then exit): not demanded of h (modelled deviation 2)
+  \* h calls the non-returning k (reads RDX, then exit(RDI) without return site): demanded of h by the
+  \* property (Full), although the analysis only transfers reads of returning paths (Returning)
   /\ LET PJ == Proj(<<Sub("sub_f", "f", <<Blk("fb0", <<>>, <<JCall("fc0", "sub_g", "fb1")>>),
                                             Blk("fb1", <<Asg("fd1", "RAX", EV("RDX"))>>, <<JRet("fr1")>>)>>),
                       Sub("sub_g", "g", <<Blk("gb0", <<Asg("gd0", "RAX", EV("RSI"))>>, <<JRet("gr0")>>)>>),
@@ -81,11 +82,16 @@ ParamChecks ==
                                             Blk("hb1", <<>>, <<JRet("hr1")>>)>>),
                       Sub("sub_k", "k", <<Blk("kb0", <<Asg("kd0", "RAX", EV("RDX"))>>, <<JCall("kc0", "extern_exit", "")>>)>>)>>,
                     Externs)
-         M == PW!MustBeParamAll(PW!Context(PJ))
-     IN  /\ M["sub_g"] = {"RSI"}
-         /\ M["sub_f"] = {"RSI"}          \* RDX is read in fb1 only after the call clobbered it
-         /\ M["sub_k"] = {"RDX"}
-         /\ M["sub_h"] = {}
+         C == PW!Context(PJ)
+         A == PW!Analysis(C)
+         M == A.full
+         R == A.ret
+     IN  /\ M["sub_g"] = {"RSI"} /\ R["sub_g"] = {"RSI"}
+         /\ M["sub_f"] = {"RSI"} /\ R["sub_f"] = {"RSI"}   \* RDX is read in fb1 only after the call clobbered it
+         /\ M["sub_k"] = {"RDX", "RDI"} /\ R["sub_k"] = {"RDX"}
+         /\ M["sub_h"] = {"RDX", "RDI"} /\ R["sub_h"] = {}
+         /\ PW!MissReasons(C, A, "sub_k", "RDI") = {"noreturn-call-read"}
+         /\ PW!MissReasons(C, A, "sub_h", "RDX") = {"callee-nonreturning-path"}
 
 (***************************************************************************)
 (* Reachability programs.  f:  b0: call access -> b1;  b1: call MID -> b2;  *)
